@@ -180,6 +180,11 @@ func visitInstr(fr *frame, instr ssa.Instruction) continuation {
 	switch instr := instr.(type) {
 	case *ssa.DebugRef:
 	case *ssa.UnOp:
+		if R.watched != nil && instr.Op == token.MUL {
+			if p, ok := fr.get(instr.X).(*value); ok {
+				R.checkWatched(p, "read", fr)
+			}
+		}
 		fr.env[instr] = unop(instr, fr.get(instr.X))
 	case *ssa.BinOp:
 		fr.env[instr] = binop(instr.Op, instr.X.Type(), fr.get(instr.X), fr.get(instr.Y))
@@ -228,6 +233,9 @@ func visitInstr(fr *frame, instr ssa.Instruction) continuation {
 		addr := fr.get(instr.Addr).(*value)
 		if addr == nil {
 			panic(nilDeref())
+		}
+		if R.watched != nil {
+			R.checkWatched(addr, "write", fr)
 		}
 		store(mustDeref(instr.Addr.Type()), addr, fr.get(instr.Val))
 	case *ssa.If:
@@ -499,6 +507,7 @@ func runFrame(fr *frame) {
 	}()
 
 	for {
+		R.curFrame = fr
 		R.steps += int64(len(fr.block.Instrs))
 		R.fnSteps[fr.fn] += len(fr.block.Instrs)
 		if R.steps > R.cfg.MaxSteps {
@@ -602,4 +611,23 @@ func allocSize(lv, cv value) (int64, int64) {
 		panic(runAbort{"allocation beyond engine bound"})
 	}
 	return n, c
+}
+
+// checkWatched reports a plain (non-atomic) access to a cell registered with
+// verifWatch while more than one thread is alive.
+func (r *Run) checkWatched(p *value, kind string, fr *frame) {
+	name, ok := r.watched[p]
+	if !ok {
+		return
+	}
+	live := 0
+	for _, t := range r.threads {
+		if !t.done {
+			live++
+		}
+	}
+	if live > 1 {
+		r.violation("race", "non-atomic "+kind+" of "+name+" while other goroutines run", fr.fn.String(), "", nil)
+		panic(runAbort{"race"})
+	}
 }
